@@ -40,9 +40,17 @@ func pesOptionalSpec(c *layout.Checker) []*layout.Source {
 			if ext {
 				exts = []int{0, 1, 2, 3, 4, 5, 6, 7, 8, 9, 10, 11, 12, 13, 14, 15}
 			}
+			if ext && ptsdts == 0 && flags == 1 {
+				// pack_header_field_flag = 1 with pack_field_length = 0 (an empty pack header — the one case in which reading
+				// the length byte only, as the parser's own TODO says it does, is what the standard asks for): the fields that
+				// follow it must still be found, and their flags still come from the flag byte
+				for ef := 16; ef < 32; ef++ {
+					exts = append(exts, ef)
+				}
+			}
 			for _, ef := range exts {
-				priv, seq, pstd, ext2 := ef&8 != 0, ef&4 != 0, ef&2 != 0, ef&1 != 0
-				b := c.NewSpec(fmt.Sprintf("PES optional header PTS_DTS=%d flags=%05b ext=%04b", ptsdts, flags, ef))
+				pack, priv, seq, pstd, ext2 := ef&16 != 0, ef&8 != 0, ef&4 != 0, ef&2 != 0, ef&1 != 0
+				b := c.NewSpec(fmt.Sprintf("PES optional header PTS_DTS=%d flags=%05b ext=%05b", ptsdts, flags, ef))
 				b.Const(2, 2).Field(2, h+".ScramblingControl").Flag(h + ".Priority").Flag(h + ".DataAlignmentIndicator").Flag(h + ".IsCopyrighted").Flag(h + ".IsOriginal")
 				b.Field(2, h+".PTSDTSIndicator").Fix(h+".PTSDTSIndicator", ptsdts)
 				b.FlagIs(h+".HasESCR", escr).FlagIs(h+".HasESRate", rate).FlagIs(h+".HasDSMTrickMode", false)
@@ -72,10 +80,13 @@ func pesOptionalSpec(c *layout.Checker) []*layout.Source {
 					b.Field(16, h+".CRC") // previous_PES_packet_CRC
 				}
 				if ext {
-					b.FlagIs(h+".HasPrivateData", priv).FlagIs(h+".HasPackHeaderField", false).FlagIs(h+".HasProgramPacketSequenceCounter", seq)
+					b.FlagIs(h+".HasPrivateData", priv).FlagIs(h+".HasPackHeaderField", pack).FlagIs(h+".HasProgramPacketSequenceCounter", seq)
 					b.FlagIs(h+".HasPSTDBuffer", pstd).Const(3, 7).FlagIs(h+".HasExtension2", ext2)
 					if priv {
 						b.BlobN(h+".PrivateData", 16) // PES_private_data: 128 bits
+					}
+					if pack {
+						b.Field(8, h+".PackField").Fix(h+".PackField", 0) // pack_field_length = 0, no pack_header()
 					}
 					if seq {
 						b.Const(1, 1).Field(7, h+".PacketSequenceCounter").Const(1, 1).Field(1, h+".MPEG1OrMPEG2ID").Field(6, h+".OriginalStuffingLength")
@@ -281,7 +292,6 @@ func c12SpecPairs(c *Ctx) []layout.RTPair {
 			NotWritten: map[string]string{
 				"PTS.Extension":     noExt,
 				"DTS.Extension":     noExt,
-				"PackField":         "pack_header_field is left out of the reference instances (the parser reads its length byte only, as its source says)",
 				"HasOptionalFields": "not part of the stream",
 			},
 		},
